@@ -768,3 +768,97 @@ class full_join_tail_2(full_join_tail):
     """C10 (full join, third phase, TWO key columns per side)."""
     params = _P2
     tier = 'thorough'
+
+
+# =================================================================== aggregate: result assembly (C12)
+def _agg_expected(group_vals, sum_over, mean_over, min_over, max_over, count_over, stdev_over):
+    if sum_over is not None:
+        return S.sum_spec(group_vals)
+    if mean_over is not None:
+        return S.mean_spec(group_vals)
+    if min_over is not None:
+        return S.min_spec(group_vals)
+    if max_over is not None:
+        return S.max_spec(group_vals)
+    if count_over is not None:
+        return S.count_spec(group_vals)
+    return S.stdev_spec(group_vals)
+
+
+def _agg_column(sum_over, mean_over, min_over, max_over, count_over, stdev_over):
+    for spec in (sum_over, mean_over, min_over, max_over, count_over, stdev_over):
+        if spec is not None:
+            return spec[0]
+    return None
+
+
+@exit_assert(AGG)
+def agg_exit(result, any_int_g, partition_index=None, over_data=None, sum_over=None, mean_over=None, min_over=None,
+             max_over=None, count_over=None, stdev_over=None):
+    """At the return of aggregate (one key vector, one aggregated column): one row per distinct
+    key, in first-appearance order; row g holds the g-th key and the aggregator's spec applied to
+    exactly the values of the rows in that key's bucket (bucket order).  `any_int_g` is an
+    arbitrary group index."""
+    col = _agg_column(sum_over, mean_over, min_over, max_over, count_over, stdev_over)
+    if partition_index is None or col is None:
+        return True
+    d = partition_index
+    g = any_int_g
+    if not (len(result._underlying) == 2 and len(result._underlying[0]._underlying) == dcount(d)
+            and len(result._underlying[1]._underlying) == dcount(d)):
+        return False
+    if not (0 <= g < dcount(d)):
+        return True
+    group_vals = [S.at(col._underlying, bat(d, dord(d, g), p)) for p in range(blen(d, dord(d, g)))]
+    return (S.same(S.at(result._underlying[0]._underlying, g), S.key_part(dord(d, g), 0))
+            and S.same(S.at(result._underlying[1]._underlying, g),
+                       _agg_expected(group_vals, sum_over, mean_over, min_over, max_over, count_over, stdev_over)))
+
+
+@contract(AGG, props=['C12'], variant='assemble-1key-sum')
+class aggregate_assemble(aggregate_partition):
+    """C12 (result assembly, one key vector, one summed column; any number of rows): with the
+    partition invariant at the loop exit, the returned table has one row per distinct key in
+    first-appearance order, the key column holds the keys and the value column holds the sum
+    spec of each bucket's values (exit assertion `agg_exit`, proved for an arbitrary group)."""
+    stop_after = ()
+    assume_loops = ('agg_partition_inv',)
+
+
+def _agg_params(which):
+    p = {'self': 'table1', 'over': 'dvector', 'sum_over': 'none', 'mean_over': 'none', 'min_over': 'none',
+         'max_over': 'none', 'stdev_over': 'none', 'count_over': 'none', 'apply': 'none'}
+    p[which + '_over'] = 'dvector'
+    return p
+
+
+@contract(AGG, props=['C12'], variant='assemble-1key-mean')
+class aggregate_assemble_mean(aggregate_assemble):
+    """C12 (result assembly, MEAN): as `assemble-1key-sum` with the mean spec."""
+    params = _agg_params('mean')
+    tier = 'thorough'
+
+
+@contract(AGG, props=['C12'], variant='assemble-1key-min')
+class aggregate_assemble_min(aggregate_assemble):
+    """C12 (result assembly, MIN)."""
+    params = _agg_params('min')
+    tier = 'thorough'
+
+
+@contract(AGG, props=['C12'], variant='assemble-1key-max')
+class aggregate_assemble_max(aggregate_assemble):
+    """C12 (result assembly, MAX)."""
+    params = _agg_params('max')
+    tier = 'thorough'
+
+
+@contract(AGG, props=['C12'], variant='assemble-1key-count')
+class aggregate_assemble_count(aggregate_assemble):
+    """C12 (result assembly, COUNT)."""
+    params = _agg_params('count')
+    tier = 'thorough'
+
+# (STDEV: the assembled value involves a second filtered pass and a real-valued power; the exit
+# obligation does not discharge reliably, so that aggregator's assembly stays bounded; its body is
+# under the aggregator contract `aggregate.<locals>.stdev_func`.)
